@@ -2,10 +2,17 @@
 
 Space: every functional graph on n = 1..5 resource ids -- each id either stores a concrete value or references any id
 (itself included): (n+1)^n graphs, 8476 in total, i.e. every cycle of length 1..5 with every shape of tails hanging
-off it, every acyclic chain and every mixture -- x entry kind {plain: Res_value TYPE_REFERENCE; complex-back-ref: a bag
-whose items are a concrete string and the reference} x {1, 2} configurations.  One table per (graph, kind, configs);
-every id of the table is queried with get_resolved_res_configs(id) under mc/budget.py.  (quick: two configurations for
-n <= 4 only; thorough: everywhere.)
+off it, every acyclic chain and every mixture -- x an entry kind PER ID from {plain: ResTable_entry + Res_value
+TYPE_REFERENCE; compact: FLAG_COMPACT entry with dataType TYPE_REFERENCE in the flags' high byte; bag
+("complex-back-ref"): a ResTable_map_entry whose items are a concrete string and the reference} x {1, 2} configurations.
+The resolver follows a reference at one call site per entry kind, so every call site lies on enumerated cycles of every
+length and next to every other call site:
+  n <= 3   every kind vector (3^n per graph: all homogeneous and all mixed cycles)
+  n = 4,5  the three homogeneous vectors + "one compact id" among plain ids / among bags, the compact id first or last
+           (all labelled graphs are enumerated, so its position in the graph is arbitrary; thorough: every position)
+One table per (graph, kind vector, configs); every id is queried with get_resolved_res_configs(id) under mc/budget.py.
+(quick: two configurations for n <= 4 only; thorough: everywhere.)  Plain and compact ids live in type `string`, bags in
+type `array` (the slot of an id in the other type is a hole).
 
 Oracle (exactly the statement): the call returns -- no exception (RecursionError included), budget not exceeded -- and
 the set of concrete values in the result equals the set of concrete values stored by the resources reachable from the
@@ -19,9 +26,10 @@ from mc.core import Acc
 
 PROPERTY = "C29"
 LEVEL = "exploration"
-RULE = ("all (n+1)^n functional graphs on n=1..5 resource ids x {plain reference entries, bags with a concrete item and a "
-        "back reference} x {1,2} configurations; every id queried under an event budget; non-trivial = the queried id reaches "
-        "a reference; distinct by construction (graph index, kind, configs, id)")
+RULE = ("all (n+1)^n functional graphs on n=1..5 resource ids x per-id entry kind {plain reference, compact reference, bag with "
+        "a concrete item and a back reference} (all 3^n vectors for n<=3; homogeneous + one-compact-id vectors for n=4,5) x "
+        "{1,2} configurations; every id queried under an event budget; non-trivial = the queried id reaches a reference; "
+        "distinct by construction (graph index, kind vector, configs, id)")
 ASSUMPTIONS = [
     "gen/arscgen.py writes well-formed tables (validated against shipped tables, see C28)",
     "termination is decided by an interpreter-event budget (sys.monitoring), never by wall clock; the budget is >= 50x the "
@@ -34,19 +42,22 @@ MANIFEST = {
     "engine": "E2-structures",
     "technique": "exhaustive enumeration of all functional reference graphs on <=5 ids, resolution under a deterministic event budget",
     "text": "Every way five resources can reference each other (all cycle lengths 1-5 with all tail shapes, 8476 graphs) is "
-            "written as a real resources.arsc in two entry encodings and with one or two configurations; every id is resolved "
+            "written as a real resources.arsc with every id encoded as plain reference, compact reference or bag (all mixtures up to "
+            "3 ids, homogeneous and one-compact mixtures for 4-5) and with one or two configurations; every id is resolved "
             "through ARSCParser.get_resolved_res_configs under an interpreter-event budget, and the returned concrete values "
             "are compared with graph reachability in the model. Complete for the bound, so termination on cycles is decided, "
             "not sampled.",
-    "note": "Trusted: gen/arscgen.py, ref/resolver.py (reachability), mc/budget.py. Cycles longer than 5 and mixed plain/bag "
-            "cycles are outside the bound.",
+    "note": "Trusted: gen/arscgen.py, ref/resolver.py (reachability), mc/budget.py. Cycles longer than 5, and for 4-5 ids "
+            "kind mixtures other than one compact id among plain ids or bags, are outside the bound.",
 }
 
 BUDGET = 400000
 FRAMES = 120            # Python frames a query may stack on top of the harness (longest legal chain needs 24: measured, and re-checked in finalize with FRAMES // 4)
 NSHARDS = 32
-KINDS = ["plain", "complex-back-ref"]
+KINDS = ["plain", "compact", "bag"]
+LABEL = {"plain": "plain", "compact": "compact", "bag": "complex-back-ref"}     # key spelling of a homogeneous class
 MAXN = 5
+FULL_MIX_N = 3
 
 
 def graphs():
@@ -66,29 +77,49 @@ def graphs():
                 break
 
 
-def build(n, f, kind, ncfg):
+def kind_vectors(ctx, n):
+    """Kind per id.  n <= 3: all 3^n vectors; n = 4, 5: homogeneous + one compact id among plain ids / bags."""
+    import itertools
+    if n <= FULL_MIX_N:
+        return [tuple(v) for v in itertools.product(KINDS, repeat=n)]
+    out = [(k,) * n for k in KINDS]
+    for base in ("plain", "bag"):
+        for pos in (range(n) if ctx.thorough else (0, n - 1)):
+            v = [base] * n
+            v[pos] = "compact"
+            out.append(tuple(v))
+    return out
+
+
+def rid_of(kinds, i):
+    return (0x7F << 24) | ((2 if kinds[i] == "bag" else 1) << 16) | i
+
+
+def build(n, f, kinds, ncfg):
     from gen import arscgen as G
     cfgs = [G.Cfg(), G.Cfg(lang="en")][:ncfg]
-    pid = 0x7F
-    entries = []
+    strings, arrays = [None] * n, [None] * n
     for i in range(n):
         vals = {}
         for ci, c in enumerate(cfgs):
             text = G.S("val%d%s" % (i, "-en" if ci else ""))
-            if kind == "plain":
-                vals[c] = G.Plain(text if f[i] < 0 else G.R((pid << 24) | 0x10000 | f[i]))
+            ref = None if f[i] < 0 else G.R(rid_of(kinds, f[i]))
+            if kinds[i] == "plain":
+                vals[c] = G.Plain(ref or text)
+            elif kinds[i] == "compact":
+                vals[c] = G.Compact(ref or text)
             else:
-                items = [(0x02000000, text)]
-                if f[i] >= 0:
-                    items.append((0x02000001, G.R((pid << 24) | 0x10000 | f[i])))
-                vals[c] = G.Complex(items)
-        entries.append(G.Entry("res%d" % i, vals))
-    tname = "string" if kind == "plain" else "array"
-    return G.Table([G.Package(pid, "com.cyc", [G.Type(tname, entries)])])
+                vals[c] = G.Complex([(0x02000000, text)] + ([(0x02000001, ref)] if ref else []))
+        (arrays if kinds[i] == "bag" else strings)[i] = G.Entry("res%d" % i, vals)
+    types = [G.Type("string", strings if any(strings) else [])]
+    if any(arrays):
+        types.append(G.Type("array", arrays))
+    return G.Table([G.Package(0x7F, "com.cyc", types)])
 
 
-def classify(n, f, node):
-    """Input-side class of a query: the cycle the node runs into (length, tail length) or the acyclic chain length."""
+def classify(n, f, node, kinds=None):
+    """Input-side class of a query: the cycle the node runs into (length, tail length) or the acyclic chain length;
+    with kinds: + the entry kinds on that cycle (on the chain for an acyclic query)."""
     seen = {}
     cur, step = node, 0
     while cur >= 0 and cur not in seen:
@@ -97,10 +128,15 @@ def classify(n, f, node):
         step += 1
     if cur < 0:
         hops = step - 1
-        return "acyclic-len%s" % (hops if hops < 3 else "3+"), hops, 0
-    clen = step - seen[cur]
-    tail = seen[cur]
-    return "cycle-len%s" % (clen if clen < 3 else "3+"), clen, tail
+        cls, clen, tail, on = "acyclic-len%s" % (hops if hops < 3 else "3+"), hops, 0, list(seen)
+    else:
+        clen, tail = step - seen[cur], seen[cur]
+        cls, on = "cycle-len%s" % (clen if clen < 3 else "3+"), [x for x, st in seen.items() if st >= tail]
+    if kinds is None:
+        return cls, clen, tail
+    ks = [k for k in KINDS if any(kinds[x] == k for x in on)]
+    label = LABEL[ks[0]] if len(ks) == 1 else "mixed:" + "+".join(ks)
+    return cls, clen, tail, label
 
 
 def _depth():
@@ -138,11 +174,11 @@ def judge_query(a, ref, rid, budget=BUDGET, frames=FRAMES):
     return None, events, "ok"
 
 
-def check_table(acc, n, f, kind, ncfg, nodes=None):
+def check_table(acc, n, f, kinds, ncfg, nodes=None):
     from androguard.core import axml
     from gen import arscgen as G
     from ref import resolver as RR
-    table = build(n, f, kind, ncfg)
+    table = build(n, f, kinds, ncfg)
     data = G.serialise(table)
     ref = RR.RefResolver(table)
     msgs = []
@@ -150,29 +186,27 @@ def check_table(acc, n, f, kind, ncfg, nodes=None):
         a = axml.ARSCParser(data)
         a._analyse()
     except Exception as e:      # noqa
-        acc.harness_error("table %r does not parse: %s %s" % ((n, f, kind, ncfg), type(e).__name__, e))
+        acc.harness_error("table %r does not parse: %s %s" % ((n, f, kinds, ncfg), type(e).__name__, e))
         return msgs
     for node in (range(n) if nodes is None else nodes):
-        rid = table.resid(0, 0, node)
-        cls, clen, tail = classify(n, f, node)
+        rid = rid_of(kinds, node)
+        cls, clen, tail, label = classify(n, f, node, kinds)
         msg, events, tag = judge_query(a, ref, rid)
-        nontrivial = f[node] >= 0
-        acc.case(outcome=(tag, cls, len(ref.reachable_values(rid))))
-        if nontrivial:
+        acc.case(outcome=(tag, cls, label, len(ref.reachable_values(rid))))
+        if f[node] >= 0:
             acc.nt_disjoint += 1
-        if cls.startswith("acyclic"):
-            acc.count("acyclic_queries")
-        else:
-            acc.count("cyclic_queries")
+        acc.count("acyclic_queries" if cls.startswith("acyclic") else "cyclic_queries")
+        if "compact" in label and not cls.startswith("acyclic"):
+            acc.count("cyclic_queries_through_compact")
         if msg:
-            key = "%s:%s%s%s" % (cls, kind, "|cfg2" if ncfg == 2 else "", "|tail" if tail else "")
-            acc.violation(key, {"n": n, "f": list(f), "kind": kind, "ncfg": ncfg, "node": node}, msg)
+            key = "%s:%s%s%s" % (cls, label, "|cfg2" if ncfg == 2 else "", "|tail" if tail else "")
+            acc.violation(key, {"n": n, "f": list(f), "kinds": list(kinds), "ncfg": ncfg, "node": node}, msg)
             msgs.append(msg)
     return msgs
 
 
 def cfg_counts(ctx, n):
-    """quick: two configurations only for n <= 4 (a runaway recursion on the unrepaired tree costs ~10 ms per query)."""
+    """quick: two configurations only for n <= 4 (a runaway recursion on an unrepaired tree costs ~5 ms per query)."""
     return (1, 2) if (ctx.thorough or n < MAXN) else (1,)
 
 
@@ -182,22 +216,29 @@ def shards(ctx):
 
 def run_shard(ctx, shard):
     acc = Acc()
+    vectors = {n: kind_vectors(ctx, n) for n in range(1, MAXN + 1)}
     for gi, (n, f) in enumerate(graphs()):
         if gi % NSHARDS != shard:
             continue
-        for kind in KINDS:
+        for kinds in vectors[n]:
             for ncfg in cfg_counts(ctx, n):
-                check_table(acc, n, f, kind, ncfg)
+                check_table(acc, n, f, kinds, ncfg)
                 acc.count("tables")
         if gi in (5, 40, 700):
-            acc.sample({"n": n, "f": list(f), "kinds": KINDS, "configs": [1, 2],
-                        "classes": [classify(n, f, k)[0] for k in range(n)]})
+            acc.sample({"n": n, "f": list(f), "kind_vectors": len(vectors[n]), "e.g.": list(vectors[n][-1]), "configs": [1, 2],
+                        "classes": [classify(n, f, k, vectors[n][-1])[0::3] for k in range(n)]})
     return acc
+
+
+def _kinds_of(w):
+    if "kinds" in w:
+        return tuple(w["kinds"])
+    return ({"plain": "plain", "complex-back-ref": "bag", "compact": "compact"}[w["kind"]],) * w["n"]    # older witnesses
 
 
 def replay(ctx, w):
     acc = Acc()
-    msgs = check_table(acc, w["n"], tuple(w["f"]), w["kind"], w["ncfg"], nodes=[w["node"]])
+    msgs = check_table(acc, w["n"], tuple(w["f"]), _kinds_of(w), w["ncfg"], nodes=[w["node"]])
     if acc.harness_errors:
         return "harness: " + acc.harness_errors[0]
     return msgs[0] if msgs else None
@@ -205,10 +246,14 @@ def replay(ctx, w):
 
 def space(ctx):
     per_n = {n: (n + 1) ** n for n in range(1, MAXN + 1)}
-    return {"ids": "1..%d" % MAXN, "graphs": sum(per_n.values()), "per_n": per_n, "kinds": KINDS,
+    vec = {n: len(kind_vectors(ctx, n)) for n in per_n}
+    return {"ids": "1..%d" % MAXN, "graphs": sum(per_n.values()), "per_n": per_n, "kinds_per_id": KINDS,
+            "kind_vectors_per_graph": vec,
+            "kind_vector_rule": "n<=%d: all 3^n; n>%d: homogeneous + one compact id among plain ids / bags at %s"
+                                % (FULL_MIX_N, FULL_MIX_N, "every position" if ctx.thorough else "the first or last position"),
             "configs": {n: list(cfg_counts(ctx, n)) for n in per_n},
-            "tables": sum(per_n[n] * len(KINDS) * len(cfg_counts(ctx, n)) for n in per_n),
-            "queries": sum(n * per_n[n] * len(KINDS) * len(cfg_counts(ctx, n)) for n in per_n),
+            "tables": sum(per_n[n] * vec[n] * len(cfg_counts(ctx, n)) for n in per_n),
+            "queries": sum(n * per_n[n] * vec[n] * len(cfg_counts(ctx, n)) for n in per_n),
             "budget_events": BUDGET}
 
 
@@ -220,15 +265,23 @@ def split_key(key):
 def minimal_witness(key):
     """The smallest case of a key's class (shards are strided, so the first witness found is not the smallest)."""
     base, ex = split_key(key)
-    cls, kind = base.split(":")
+    cls, label = base.split(":", 1)
     k = {"1": 1, "2": 2, "3+": 3}[cls.split("len")[1]]
+    ks = label[6:].split("+") if label.startswith("mixed:") else [{v: u for u, v in LABEL.items()}[label]]
     if cls.startswith("cycle"):
+        if len(ks) > k:
+            return None
         f = [(i + 1) % k for i in range(k)]
+        kinds = [ks[min(i, len(ks) - 1)] for i in range(k)]
         if "tail" in ex:
             f = [1] + [1 + (i + 1) % k for i in range(k)]       # id 0 hangs off the cycle 1..k
+            kinds = [kinds[0]] + kinds
     else:
         f = [i + 1 for i in range(k)] + [-1]
-    return {"n": len(f), "f": f, "kind": kind, "ncfg": 2 if "cfg2" in ex else 1, "node": 0}
+        if len(ks) > k + 1:
+            return None
+        kinds = [ks[min(i, len(ks) - 1)] for i in range(k + 1)]
+    return {"n": len(f), "f": f, "kinds": kinds, "ncfg": 2 if "cfg2" in ex else 1, "node": 0}
 
 
 def finalize(ctx, acc):
@@ -242,34 +295,37 @@ def finalize(ctx, acc):
                 break
     for k, v in acc.viol.items():
         w = minimal_witness(k)
-        if classify(w["n"], tuple(w["f"]), 0)[0] == split_key(k)[0].split(":")[0]:
+        if w and "%s:%s" % classify(w["n"], tuple(w["f"]), 0, w["kinds"])[0::3] == split_key(k)[0]:
             probe = Acc()
-            msgs = check_table(probe, w["n"], tuple(w["f"]), w["kind"], w["ncfg"], nodes=[0])
+            msgs = check_table(probe, w["n"], tuple(w["f"]), tuple(w["kinds"]), w["ncfg"], nodes=[0])
             if msgs:
                 v["witness"], v["msg"] = w, msgs[0]
     # vacuity / budget calibration
     from androguard.core import axml
     from gen import arscgen as G
     from ref import resolver as RR
-    if acc.extra.get("cyclic_queries", 0) < 40000 or acc.extra.get("acyclic_queries", 0) < 10000:
+    if acc.extra.get("cyclic_queries", 0) < 150000 or acc.extra.get("acyclic_queries", 0) < 50000 \
+            or acc.extra.get("cyclic_queries_through_compact", 0) < 30000:
         acc.harness_error("space degenerated: %r" % acc.extra)
     worst = 0
     for kind in KINDS:
         f = (1, 2, 3, 4, -1)
-        t = build(5, f, kind, 2)
+        kinds = (kind,) * 5
+        t = build(5, f, kinds, 2)
         a = axml.ARSCParser(G.serialise(t))
         a._analyse()
-        msg, events, tag = judge_query(a, RR.RefResolver(t), t.resid(0, 0, 0))
+        msg, events, tag = judge_query(a, RR.RefResolver(t), rid_of(kinds, 0))
         worst = max(worst, events)
         # the lowered recursion limit must be far from what a legal resolution needs: the longest chain has to pass with
         # a quarter of the frames as well (skipped when it fails even with the full allowance: that is a finding, not vacuity)
-        msg4, _e, tag4 = judge_query(a, RR.RefResolver(t), t.resid(0, 0, 0), frames=FRAMES // 4)
+        msg4, _e, _t = judge_query(a, RR.RefResolver(t), rid_of(kinds, 0), frames=FRAMES // 4)
         if msg is None and msg4 is not None:
             acc.harness_error("the longest acyclic chain needs more than %d frames: %s" % (FRAMES // 4, msg4))
     acc.count("events_longest_acyclic_chain", worst)
     if worst * 50 > BUDGET:
         acc.harness_error("budget %d is less than 50x the longest acyclic chain (%d events)" % (BUDGET, worst))
     # the judge must notice a wrong answer: reachable set of a chain must not be empty
-    t = build(2, (1, -1), "plain", 1)
-    if not RR.RefResolver(t).reachable_values(t.resid(0, 0, 0)):
-        acc.harness_error("self-test: reachability of a 1-hop chain is empty")
+    for kinds in (("plain", "plain"), ("compact", "bag"), ("bag", "compact")):
+        t = build(2, (1, -1), kinds, 1)
+        if not RR.RefResolver(t).reachable_values(rid_of(kinds, 0)):
+            acc.harness_error("self-test: reachability of a 1-hop chain %r is empty" % (kinds,))
